@@ -12,6 +12,7 @@ import (
 	_ "verifharness/engines/headerproof"
 	_ "verifharness/engines/lookup"
 	_ "verifharness/engines/net"
+	_ "verifharness/engines/lightclient"
 	_ "verifharness/engines/store"
 	_ "verifharness/engines/table"
 )
